@@ -3670,7 +3670,9 @@ func (b *SystemBackend) handleWrappingRewrap(ctx context.Context, req *logical.R
 		if err != nil {
 			return nil, fmt.Errorf("error decrementing wrapping token's use-count: %w", err)
 		}
-		defer b.Core.tokenStore.revokeOrphan(ctx, token)
+		// The token named in the request body is in its external form; the
+		// token store revokes by the entry's own ID.
+		defer b.Core.tokenStore.revokeOrphan(ctx, te.ID)
 	}
 
 	// Fetch the original TTL
